@@ -317,3 +317,19 @@ mutant('c11-loop-stack-leak','C11','compileStmt',CS,'''			labelContinue: head_la
 
 		self.compileBlock(node.Body, true)
 		self.insert(newOneStringInstruction(Opcode_Jump, head_label), node.Span())''')
+# C20
+FI='homescript/fuzzer/infixExpression.go'
+FE='homescript/fuzzer/expression.go'
+mutant('c20-reversed-le','C20','infixExpr#assert:comparison-table',FI,'			pAst.LessThanEqualInfixOperator:    pAst.GreaterThanEqualInfixOperator,','			pAst.LessThanEqualInfixOperator:    pAst.GreaterThanInfixOperator,')
+mutant('c20-flip-same-op','C20','infixExpr#assert:plus-minus-table',FI,'''		if node.Operator == pAst.PlusInfixOperator {
+			topLevelOp = pAst.MinusInfixOperator
+		} else {''','''		if node.Operator == pAst.PlusInfixOperator {
+			topLevelOp = pAst.PlusInfixOperator
+		} else {''')
+mutant('c20-equality-inner','C20','infixExpr#assert:equality-table',FI,'''		if node.Operator == pAst.EqualInfixOperator {
+			innerOp = pAst.NotEqualInfixOperator
+		} else {''','''		if node.Operator == pAst.EqualInfixOperator {
+			innerOp = pAst.EqualInfixOperator
+		} else {''')
+mutant('c20-literal-inverse','C20','expressionVariants#assert:literal-inverse-table',FE,'		inverseOperators := []pAst.InfixOperator{pAst.MinusInfixOperator, pAst.PlusInfixOperator, pAst.DivideInfixOperator}\n\n		randomValues := []int64{42, 69, 4711}','		inverseOperators := []pAst.InfixOperator{pAst.MinusInfixOperator, pAst.PlusInfixOperator, pAst.MultiplyInfixOperator}\n\n		randomValues := []int64{42, 69, 4711}')
+mutant('c20-literal-zero','C20','expressionVariants#assert:literal-inverse-table',FE,'		randomValues := []int64{42, 69, 4711}','		randomValues := []int64{42, 0, 4711}')
